@@ -122,11 +122,29 @@ type sut struct {
 	q      queue.Queue
 	ids    map[*queue.DecodedSSVMessage]uint64
 	shadow map[uint64]*queue.DecodedSSVMessage // queued according to the monitor
+	bodies map[uint64]body                     // what each id is, as the driver built it
+}
+
+// before: the DOCUMENTED coarse priority order, decided by the driver from what it built (not by the queue's own
+// prioritizer): a duty start before everything else, a timeout before every non-event, and among consensus
+// messages the current height before other heights.  true = x must be returned before m.
+func before(p pstate, x, m body) bool {
+	isExec := func(b body) bool { return b.kind == 'E' && ssvtypes.EventType(b.a) == ssvtypes.ExecuteDuty }
+	isTimeout := func(b body) bool { return b.kind == 'E' && ssvtypes.EventType(b.a) == ssvtypes.Timeout }
+	switch {
+	case isExec(x) && !isExec(m):
+		return true
+	case isTimeout(x) && m.kind != 'E':
+		return true
+	case x.kind == 'C' && m.kind == 'C' && x.a == p.h && m.a != p.h:
+		return true
+	}
+	return false
 }
 
 func newSut(out *hx.Out, capacity int) *sut {
 	out.Op("NEW", "%d", capacity)
-	return &sut{out: out, q: queue.New(capacity), ids: map[*queue.DecodedSSVMessage]uint64{}, shadow: map[uint64]*queue.DecodedSSVMessage{}}
+	return &sut{out: out, q: queue.New(capacity), ids: map[*queue.DecodedSSVMessage]uint64{}, shadow: map[uint64]*queue.DecodedSSVMessage{}, bodies: map[uint64]body{}}
 }
 
 func (s *sut) filter(f filt) queue.Filter {
@@ -167,6 +185,7 @@ func (s *sut) filter(f filt) queue.Filter {
 func (s *sut) push(id uint64, b body) {
 	m := b.build()
 	s.ids[m] = id
+	s.bodies[id] = b
 	s.out.Op("PUSH", "%d %s", id, b)
 	ok := s.q.TryPush(m)
 	if ok {
@@ -211,6 +230,14 @@ func (s *sut) afterPop(m *queue.DecodedSSVMessage, p pstate, f filt, maximal boo
 			for xid, x := range s.shadow {
 				if fl(x) && !pr.Prior(m, x) {
 					s.out.ViolF("pop returned %d although admissible %d is strictly prior", id, xid)
+					break
+				}
+			}
+			// the same against the documented order, without asking the queue's prioritizer
+			for xid, x := range s.shadow {
+				if fl(x) && before(p, s.bodies[xid], s.bodies[id]) {
+					s.out.ViolF("pop returned %d (%s) although admissible %d (%s) comes first in the documented order (state height %d)",
+						id, s.bodies[id], xid, s.bodies[xid], p.h)
 					break
 				}
 			}
